@@ -586,7 +586,7 @@ def _hyp_field_shard(ctx: Ctx, shard: int, nshards: int, n: int) -> None:
 
 def _run_field(ctx: Ctx) -> None:
     shard_run(ctx, _grid_shard)
-    shard_run(ctx, _bulk_shard, extra=(800 if ctx.quick else 15_000,))
+    shard_run(ctx, _bulk_shard, extra=(1200 if ctx.quick else 15_000,))
     shard_run(ctx, _hyp_field_shard, extra=(200 if ctx.quick else 3000,))
     ctx.note("p255", R.P255)
     ctx.note("random_prime_pool", list(_prime_pool(ctx.seed)))
